@@ -3,7 +3,8 @@ from props import element_common as ec
 
 NAMESPACE = 'C04'
 LEAN_TARGETS = ['MxV.Props.C04']
-THEOREMS = ['setAttr_ok_iff', 'setAttr_error_stores_nothing', 'setAttr_none_removes', 'setAttr_stores', 'missingRequired_nil_iff', 'serialised_eq_store', 'normKey_idem']
+THEOREMS = ['setAttr_ok_iff', 'setAttr_error_stores_nothing', 'setAttr_none_removes', 'setAttr_stores', 'missingRequired_nil_iff', 'serialised_eq_store', 'normKey_idem',
+            'storeGet_set_other', 'storeGet_del_other', 'setAttr_frame', 'setAttr_keys_nodup']
 TRUSTED_BASE = ['Lean 4.33.0 kernel', 'axioms: propext, Quot.sound, Classical.choice only (audited per theorem)',
                 'translator extract/*.py (attribute / validator / template tables regenerated every run)',
                 'correspondence harness: real XMLElement trees vs the Lean models Element, Values, Serialize, Parser, Mfull through mxdriver',
